@@ -11,6 +11,8 @@ pub struct World {
     pub verified: Map<PathV, Seq<u8>>,   // staging files whose bytes were checked against a declared hash: path -> that hash
     pub log: Seq<Eff>,
     pub reliable: bool,
+    pub seen: Map<PathV, FileS>,    // ghost history: the tree as it was when this process last ACQUIRED the commit lock
+    pub nlock: nat,                 // ghost history: how many times this process acquired the commit lock
 }
 pub open spec fn ends_with(p: PathV, suf: PathV) -> bool { exists|q: PathV| p == #[trigger] (q + suf) }
 pub open spec fn is_staging(p: PathV) -> bool { ends_with(p, TMP()) }
@@ -30,6 +32,7 @@ pub open spec fn same_except(new: Map<PathV, FileS>, old: Map<PathV, FileS>, s: 
 // everything but the files and the log is unchanged by a primitive
 pub open spec fn same_ctl(n: World, o: World) -> bool {
     n.root == o.root && n.lock == o.lock && n.private == o.private && n.reliable == o.reliable && n.verified == o.verified
+        && n.seen == o.seen && n.nlock == o.nlock
 }
 // a name that embeds this process's id and a per-process counter is used by no other process and by no other request
 pub uninterp spec fn private_name(p: PathV) -> bool;
@@ -82,8 +85,8 @@ pub fn vfs_lock_exclusive(l: &LockFile, Tracked(w): Tracked<&mut World>) -> (r: 
     ensures
         final(w).root == old(w).root, final(w).private == old(w).private, final(w).reliable == old(w).reliable, final(w).verified == old(w).verified,
         final(w).log == old(w).log,
-        r is Ok ==> final(w).lock,
-        r is Err ==> final(w).lock == old(w).lock,
+        r is Ok ==> final(w).lock && final(w).seen == final(w).files && final(w).nlock == old(w).nlock + 1,
+        r is Err ==> final(w).lock == old(w).lock && final(w).seen == old(w).seen && final(w).nlock == old(w).nlock,
         // private files are untouched by the others; everything else is unknown (havoc)
         forall|p: PathV| old(w).private.contains(p) ==> (#[trigger] final(w).files.dom().contains(p)) == old(w).files.dom().contains(p)
             && (final(w).files.dom().contains(p) ==> final(w).files[p] == old(w).files[p]),
@@ -91,7 +94,7 @@ pub fn vfs_lock_exclusive(l: &LockFile, Tracked(w): Tracked<&mut World>) -> (r: 
 #[verifier::external_body]
 pub fn vfs_unlock(l: &LockFile, Tracked(w): Tracked<&mut World>) -> (r: std::io::Result<()>)
     ensures final(w).files == old(w).files, final(w).root == old(w).root, final(w).private == old(w).private, final(w).verified == old(w).verified,
-        final(w).reliable == old(w).reliable, final(w).log == old(w).log, !final(w).lock,
+        final(w).reliable == old(w).reliable, final(w).log == old(w).log, !final(w).lock, final(w).seen == old(w).seen, final(w).nlock == old(w).nlock,
 { unimplemented!() }
 
 // meta::fingerprint_path(dst).ok().map(|f| f.blake3) by contract: ONLY under the lock does the answer describe the file
@@ -114,6 +117,7 @@ pub mod vfs {
         pub fn create<P: AsRef<Path>>(p: P, Tracked(w): Tracked<&mut World>) -> (r: std::io::Result<File>)
             requires inside(old(w).root, asp(p)), is_staging(asp(p)), private_name(asp(p)),
             ensures final(w).root == old(w).root, final(w).lock == old(w).lock, final(w).reliable == old(w).reliable,
+                final(w).seen == old(w).seen, final(w).nlock == old(w).nlock,
                 final(w).log == old(w).log.push(Eff::Write(asp(p))),
                 r is Ok ==> r->Ok_0.path() == asp(p) && final(w).files == old(w).files.insert(asp(p), FileS { bytes: Seq::empty(), synced: false })
                     && final(w).private == old(w).private.insert(asp(p)) && final(w).verified == old(w).verified.remove(asp(p)),
@@ -123,6 +127,7 @@ pub mod vfs {
         pub fn write_all(&mut self, buf: &[u8], Tracked(w): Tracked<&mut World>) -> (r: std::io::Result<()>)
             requires old(w).private.contains(old(self).path()), is_staging(old(self).path()),
             ensures final(self).path() == old(self).path(), final(w).root == old(w).root, final(w).lock == old(w).lock, final(w).reliable == old(w).reliable,
+                final(w).seen == old(w).seen, final(w).nlock == old(w).nlock,
                 final(w).private == old(w).private, final(w).verified == old(w).verified.remove(old(self).path()),
                 final(w).log == old(w).log.push(Eff::Write(old(self).path())),
                 same_except(final(w).files, old(w).files, set![old(self).path()]),
